@@ -664,7 +664,7 @@ func definitelyNonNilErr(v ssa.Value, guards []Guard) bool {
 			return false
 		}
 	case *ssa.UnOp:
-		if g, ok := x.X.(*ssa.Global); ok && x.Op == token.MUL && strings.HasPrefix(g.Name(), "Err") {
+		if g, ok := x.X.(*ssa.Global); ok && x.Op == token.MUL && strings.HasPrefix(strings.ToLower(g.Name()), "err") {
 			return true
 		}
 	case *ssa.Phi:
